@@ -29,3 +29,136 @@ pub(crate) fn io_event(ev: IoEvent) {
         sink(ev);
     }
 }
+
+/// The write-ahead log on its own (C17): append, force, truncate, reopen, read back.
+pub mod wal {
+    use crate::{
+        io::{disk::FileOperations, wal::WriteAheadLog},
+        storage::wal::{OwnedRecord, RecordType},
+    };
+    use std::{
+        io::{self, Write},
+        path::Path,
+    };
+
+    /// A record as plain data.
+    #[derive(Debug, Clone, PartialEq, Eq)]
+    pub struct Rec {
+        pub lsn: u64,
+        pub tid: u64,
+        pub prev_lsn: Option<u64>,
+        pub object_id: Option<u64>,
+        pub row_id: Option<u64>,
+        pub kind: u8,
+        pub undo: Vec<u8>,
+        pub redo: Vec<u8>,
+        pub total_size: usize,
+    }
+
+    pub struct Wal(Option<WriteAheadLog>);
+
+    fn kind_of(kind: u8) -> RecordType {
+        match kind {
+            0x00 => RecordType::Begin,
+            0x01 => RecordType::Commit,
+            0x02 => RecordType::Abort,
+            0x03 => RecordType::End,
+            0x06 => RecordType::Update,
+            0x07 => RecordType::Delete,
+            0x08 => RecordType::Insert,
+            0x09 => RecordType::Create,
+            0x0A => RecordType::Drop,
+            _ => RecordType::Alter,
+        }
+    }
+
+    impl Wal {
+        pub fn create(path: impl AsRef<Path>) -> io::Result<Self> {
+            Ok(Self(Some(WriteAheadLog::create(path)?)))
+        }
+
+        pub fn open(path: impl AsRef<Path>) -> io::Result<Self> {
+            Ok(Self(Some(WriteAheadLog::open(path)?)))
+        }
+
+        fn inner(&mut self) -> &mut WriteAheadLog {
+            self.0.as_mut().expect("wal taken")
+        }
+
+        /// (usable bytes of a data block, block size)
+        pub fn caps(&mut self) -> (usize, usize) {
+            let w = self.inner();
+            (w.max_record_size(), w.stats().block_size)
+        }
+
+        /// Size a record with these payloads occupies in a block.
+        pub fn record_size(undo_len: usize, redo_len: usize) -> usize {
+            OwnedRecord::new(0, 0, None, None, None, RecordType::Update, &vec![0; undo_len], &vec![0; redo_len])
+                .as_record_ref()
+                .total_size()
+        }
+
+        /// Appends one record the way `Pager::push_to_log` does: the next LSN is the log's last LSN + 1.
+        pub fn push(
+            &mut self,
+            tid: u64,
+            kind: u8,
+            object_id: Option<u64>,
+            row_id: Option<u64>,
+            prev_lsn: Option<u64>,
+            undo: &[u8],
+            redo: &[u8],
+        ) -> io::Result<u64> {
+            let w = self.inner();
+            let lsn = w.last_lsn().map(|l| l + 1).unwrap_or(0);
+            let record = OwnedRecord::new(
+                lsn,
+                tid.into(),
+                prev_lsn,
+                object_id.map(Into::into),
+                row_id.map(Into::into),
+                kind_of(kind),
+                undo,
+                redo,
+            );
+            w.push(record)?;
+            Ok(lsn)
+        }
+
+        pub fn force(&mut self) -> io::Result<()> {
+            self.inner().flush()
+        }
+
+        pub fn truncate(&mut self) -> io::Result<()> {
+            self.inner().truncate()
+        }
+
+        /// Reads the whole log back with the given read-ahead (in blocks).
+        pub fn read_all(&mut self, read_ahead_blocks: usize) -> io::Result<Vec<Rec>> {
+            let mut out = Vec::new();
+            let mut reader = self.inner().reader(read_ahead_blocks)?;
+            while let Some(r) = reader.next_ref()? {
+                let m = r.metadata();
+                out.push(Rec {
+                    lsn: r.lsn(),
+                    tid: r.tid().into(),
+                    prev_lsn: m.prev_lsn,
+                    object_id: m.object_id.map(Into::into),
+                    row_id: m.row_id.map(Into::into),
+                    kind: r.log_type() as u8,
+                    undo: r.undo_payload().to_vec(),
+                    redo: r.redo_payload().to_vec(),
+                    total_size: r.total_size(),
+                });
+            }
+            Ok(out)
+        }
+
+        /// Drops the handle without the final force of `Drop` (the process "dies").
+        pub fn forget(mut self) {
+            if let Some(w) = self.0.take() {
+                std::mem::forget(w);
+            }
+        }
+    }
+}
